@@ -90,6 +90,21 @@ Theorem C02_globstar_path_language : forall flags isb units endg,
 Proof. exact C02Glob.C02_globstar_path_language. Qed.
 Print Assumptions C02_globstar_path_language.
 
+(* ... and the spelling does not matter there either: written with every separator - after a segment as after a `**` -
+   respelled as any non-empty run of `/` and escaped `\/`, and with any number of further `**/` after a `**/` (they merge
+   into it), a pattern of this fragment (C02Glob.punUr) compiles to the very regex of its plain spelling *)
+Theorem C02_globstar_separator_runs : forall flags isb (units : list C02Glob.unit_r) endg,
+  (units <> [] \/ endg = true) -> Forall (fun u => C02Glob.uwf_r u = true) units ->
+  has flags Mwcparse.PATHNAME = true -> has flags Mwcparse.GLOBSTAR = true -> has flags Mwcparse.GLOBSTARLONG = false ->
+  has flags Mwcparse.DOTMATCH = false ->
+  FlagFuns.is_unix_style linux flags = true -> has flags Mwcparse.EXTMATCH = false ->
+  has flags Mwcparse.NODOTDIR = false -> has flags Mwcparse.REALPATH = false ->
+  has flags Mwcparse.u_ANCHOR = false -> has flags Mwcparse.MATCHBASE = false ->
+  has flags Mwcparse.u_EXTMATCHBASE = false -> has flags Mwcparse.u_TRANSLATE = false ->
+  wcparse linux flags isb (C02Glob.punUr units endg) = wcparse linux flags isb (C02Glob.punU (map C02Glob.strip units) endg).
+Proof. exact C02Glob.wcparse_pathG_runs. Qed.
+Print Assumptions C02_globstar_separator_runs.
+
 (* `**` crosses whole segments only: what follows it starts at the beginning of the name or right after a separator *)
 Theorem C02_globstar_whole_segments : forall prev b ts rest n,
   C02Glob.psegwf (C02Glob.PSeg ts) = true -> C02Path.nonl n ->
